@@ -900,16 +900,36 @@ Qed.
 (** * the Display impls format_state calls are total (C15), whatever the getters return *)
 Require IndProofs.FmtProofs.
 
-Theorem formatters_total sn tm key width c :
-  formatter_call sn tm key width = Some c -> exists s, Fmt.fmt_model c = Ok s.
-Proof. intros _. apply FmtProofs.fmt_total. Qed.
-
-(* in particular the saturated estimates: eta() = u64::MAX seconds, duration() = Duration::MAX *)
-Lemma formatters_total_saturated sn pb pu el :
-  let tm := mktimes el (U64MAX, 999999999) (U64MAX, 999999999) pb pu in
-  (exists s, Fmt.fmt_model (Fmt.CHDur U64MAX 999999999 true) = Ok s)
-  /\ formatter_call sn tm KeyNames.eta None = Some (Fmt.CHDur U64MAX 999999999 true)
-  /\ formatter_call sn tm KeyNames.duration None = Some (Fmt.CHDur U64MAX 999999999 true).
+(* the entry named for a key is the case C11's dispatch evaluates (with C16's formatter record):
+   the drawn text is the formatter's output (or [] if the model panicked) followed by the suffix *)
+Lemma formatter_call_agrees dec32 ticks tab s b w c suf :
+  formatter_call s b w = Some (c, suf) ->
+  fst (Keys.builtin_value (TabsEnv.fmt_formatters dec32) ticks tab s b w)
+  = TabsEnv.ok_or_nil (Fmt.fmt_model c) ++ suf.
 Proof.
-  cbv zeta. split; [apply FmtProofs.fmt_total|]. split; vm_compute; reflexivity.
+  destruct b; cbn [formatter_call]; intros H; inversion H; subst; clear H;
+    cbn [Keys.builtin_value fst TabsEnv.fmt_formatters Keys.f_count Keys.f_hbytes Keys.f_dbytes
+         Keys.f_bbytes Keys.f_fdur Keys.f_hdur Keys.f_hfloat Fmt.fmt_model TabsEnv.ok_or_nil snd];
+    rewrite ?app_nil_r; try reflexivity.
+  destruct w; reflexivity.
+Qed.
+
+(* keys without an entry do not use a formatter of src/format.rs at all *)
+Lemma formatter_call_none F G ticks tab s b w :
+  formatter_call s b w = None -> same_core_formatters F G ->
+  Keys.builtin_value F ticks tab s b w = Keys.builtin_value G ticks tab s b w.
+Proof.
+  intros H [Hp Hb]. destruct b; cbn [formatter_call] in H; try discriminate;
+    cbn [Keys.builtin_value]; rewrite ?Hp, ?Hb; reflexivity.
+Qed.
+
+(** every formatter of src/format.rs that the key dispatch evaluates returns a string, and that
+    string (not the [] a model panic would be turned into) is what the dispatch draws *)
+Theorem formatters_total dec32 ticks tab s b w c suf :
+  formatter_call s b w = Some (c, suf) ->
+  exists str, Fmt.fmt_model c = Ok str
+    /\ fst (Keys.builtin_value (TabsEnv.fmt_formatters dec32) ticks tab s b w) = str ++ suf.
+Proof.
+  intros H. destruct (FmtProofs.fmt_total c) as [str E]. exists str. split; [exact E|].
+  rewrite (formatter_call_agrees dec32 ticks tab s b w c suf H), E. reflexivity.
 Qed.
